@@ -7,10 +7,11 @@ VERIF = os.path.dirname(HERE)
 sys.path.insert(0, HERE)
 props = [json.loads(l) for l in open(os.path.join(VERIF, "properties.jsonl"))]
 reasons = json.load(open(os.path.join(HERE, "not_claimed.json")))
+claimed = json.load(open(os.path.join(HERE, "claimed.json")))
 checks, na = [], []
 for p in props:
     pid = p["id"]
-    if os.path.exists(os.path.join(HERE, "props", pid + ".py")) and pid not in reasons.get("_withdrawn", {}):
+    if pid in claimed and os.path.exists(os.path.join(HERE, "props", pid + ".py")):
         mod = importlib.import_module("props." + pid)
         M = mod.MANIFEST
         checks.append({
